@@ -2,6 +2,6 @@ CONSTANTS
   MaxText = 4
   MaxTextPos = 3
   MaxChildren = 3
-  Alphabet = {"sp", "tab", "lf", "cr", "crlf", "nbsp", "ideo", "ls", "a", "b", "amp", "nbspE"}
+  Alphabet = {"sp", "tab", "lf", "cr", "crlf", "nbsp", "ideo", "ls", "a", "b", "amp", "nbspE", "lfE"}
 INIT Init
 NEXT Next
